@@ -110,6 +110,34 @@ template <class S> static void large_vectors() {
   o.eval(ev_index("source_u/S1"));
 }
 
+// ------------------------------------------------------------------ C10: the same call very many times (state that builds up with the number of calls)
+template <class S> static void mill(long n) {
+  Model<S> m; Ops<S> o(m);
+  static const char* SOLS_[] = {"heateq_1d_steady_const", "euler_1d", "fans_sa_steady_wall_bounded", "sod_1d", "cp_normal", "radiation_integrated_intensity", "euler_chem_1d", "rans_sa"};
+  for (const char* sn : SOLS_) {
+    const SolSpec* sp = find_sol(sn);
+    if (!sp || sp->prov.empty()) continue;
+    o.init("mill", sn);
+    auto it = sp->prov.begin(); std::advance(it, R->below((int)sp->prov.size()));
+    const Ev& e = api()[ev_index(*it)];
+    S a[4]; for (int i = 0; i < 4; i++) a[i] = (S)POOL[3][i];
+    hist("masa_eval_" + e.id + "<" + o.P + "> on " + sn + " x " + std::to_string(n) + " identical calls");
+    CAP.begin();
+    S first = call_ev<S>(e, a, 1, cbK<S>());
+    long bad = -1; S got = first;
+    for (long k = 1; k < n; k++) { S v = call_ev<S>(e, a, 1, cbK<S>()); if (!biteq(v, first)) { bad = k; got = v; break; } }
+    CAP.end();
+    CNT.evals += n;
+    if (bad >= 0) hviol("C10", std::string("evaluation-changes-with-the-number-of-calls:") + sn + ":" + e.id, "identical call number " + std::to_string(bad + 1) + " returned " + sval(got) + ", the first one " + sval(first));
+    compare_selected(m, "C10", "evaluator-wrote-parameter:" + e.id, "after " + std::to_string(n) + " identical calls");
+    // and a fresh instance still gives the first value
+    o.init("mill-twin", sn);
+    CAP.begin(); S tw = call_ev<S>(e, a, 1, cbK<S>()); CAP.end();
+    if (!biteq(tw, first)) hviol("C10", std::string("evaluation-depends-on-history:") + sn + ":" + e.id, "a fresh handle returned " + sval(tw) + " where the first of " + std::to_string(n) + " calls returned " + sval(first));
+    LOG.count("identical_calls_in_a_row", n);
+  }
+}
+
 // ------------------------------------------------------------------ C11 systematic sweep
 template <class S> static void sweep() {
   Model<S> m; Ops<S> o(m);
@@ -278,6 +306,7 @@ int main(int argc, char** argv) {
     for (int j = 0; j < 8; j++) { for (int c = 0; c < 4; c++) POOL[8 + j][c] = POOL[j % 4][c]; POOL[8 + j][j % 4] = (long double)(double)r.uni(0.1L, 1.9L); if (j >= 4) POOL[8 + j][3 - j % 4] = POOL[8 + j][j % 4]; } }
   if (mode == "random") run_random(n);
   else if (mode == "sweep") { sweep<double>(); sweep<long double>(); large_vectors<double>(); large_vectors<long double>(); }
+  else if (mode == "mill") { mill<double>(n); mill<long double>(n); }
   else if (mode == "many") { many_handles<double>((int)n); many_handles<long double>((int)n); }
   else if (mode == "exhaustive") run_exhaustive(atoi(getarg(argc, argv, "--maxlen", "4").c_str()), shard, atoi(getarg(argc, argv, "--parts", "1").c_str()));
   else if (mode == "preinit") { if (getarg(argc, argv, "--prec", "d") == "d") preinit<double>(); else preinit<long double>(); }
